@@ -29,4 +29,12 @@ CHECKS["C17"] = {
     "note": TRUST + "The continuation slice of the loop is intercepted to observe one iteration; sequences follow because the loop is stateless. "
             "Consecutive PADDING frames count as one. Bounds in the evidence file.",
 }
+CHECKS["C14"] = {
+    "technique": "symbolic execution of split_cipher_suite on a symbolic 16-bit id with a solver-decided table lookup; result compared with a frozen registry copy and an independent name parser",
+    "text": "Exhaustive over all 65536 code points: the lookup forks once per table entry and once for 'absent'; on every path the "
+            "name must be the registry's name for that code point and the resolved cipher class, AEAD flag, key length, hash and tag "
+            "length must equal what an independent parser derives from the name; the 'absent' path must cover exactly the ids "
+            "outside the table and return 'unsupported'.",
+    "note": TRUST + "Registry copy: spec/iana_tls_cipher_suites.json (scapy 2.7.0 table + RFC 6655/8442/8492), cross-checked against openssl -stdname on every run.",
+}
 NOT_APPLICABLE = {}
